@@ -18,19 +18,23 @@ pub assume_specification<B, C>[ <ControlFlow<B, C> as core::ops::FromResidual<Co
 
 pub trait Runtime {}
 pub struct List { pub verif_opaque: u8 }
-pub struct Env<S> { pub exit_status: ExitStatus, pub verif_log: Ghost<Seq<Result>>, pub system: S }
+/// `verif_bodies` counts the executions of a loop body so far, `verif_last_body` is the exit status the most recent one
+/// left, `verif_last_is_body` says whether the most recent log entry came from a body (and not from a condition)
+pub struct Env<S> { pub exit_status: ExitStatus, pub verif_log: Ghost<Seq<Result>>, pub verif_bodies: Ghost<nat>, pub verif_last_body: Ghost<ExitStatus>, pub verif_last_is_body: Ghost<bool>, pub system: S }
 
 impl List {
     /// executing the commands of a list: any result, any exit status; recorded
     #[verifier::external_body]
     pub fn execute<S>(&self, env: &mut Env<S>) -> (r: Result)
-        ensures final(env).verif_log@ == old(env).verif_log@.push(r)
+        ensures final(env).verif_log@ == old(env).verif_log@.push(r),
+            final(env).verif_bodies@ == old(env).verif_bodies@ + 1, final(env).verif_last_body@ == final(env).exit_status, final(env).verif_last_is_body@
     { unimplemented!() }
 }
 /// evaluating the condition of a loop: whether it held, or the divert that interrupted it; recorded
 #[verifier::external_body]
 pub fn evaluate_condition<S>(env: &mut Env<S>, condition: &List) -> (r: ControlFlow<Divert, bool>)
-    ensures final(env).verif_log@ == old(env).verif_log@.push(match r { ControlFlow::Continue(_) => ControlFlow::<Divert, ()>::Continue(()), ControlFlow::Break(d) => ControlFlow::<Divert, ()>::Break(d) })
+    ensures final(env).verif_log@ == old(env).verif_log@.push(match r { ControlFlow::Continue(_) => ControlFlow::<Divert, ()>::Continue(()), ControlFlow::Break(d) => ControlFlow::<Divert, ()>::Break(d) }),
+        final(env).verif_bodies@ == old(env).verif_bodies@, final(env).verif_last_body@ == old(env).verif_last_body@, !final(env).verif_last_is_body@
 { unimplemented!() }
 
 /// the log has only grown
@@ -44,6 +48,13 @@ pub open spec fn quiet(log: Seq<Result>, from: int, to: int) -> bool {
 /// the entries [from, to) of the log are all "went on normally" or "continue (this loop)"
 pub open spec fn quiet_or_continue(log: Seq<Result>, from: int, to: int) -> bool {
     forall|i: int| from <= i < to ==> (#[trigger] log[i] == ControlFlow::<Divert, ()>::Continue(()) || log[i] == ControlFlow::<Divert, ()>::Break(Divert::Continue { count: 0 }))
+}
+/// "The exit status of a while or until loop is that of the last command run in the loop body, or 0 if the loop body
+/// does not run" (docs/src/language/commands/loops.md; XCU 2.9.4.3): the status the loop has recorded is the one the
+/// most recent execution of its body left - also when that execution ended with `continue` or `break` - and what it
+/// started with if the body has not run
+pub open spec fn body_status_recorded<S>(recorded: ExitStatus, before: Env<S>, recorded_before: ExitStatus, after: Env<S>) -> bool {
+    if after.verif_bodies@ > before.verif_bodies@ { recorded == after.verif_last_body@ } else { recorded == recorded_before }
 }
 /// XCU 2.15 break / continue, one enclosing loop: what the loop hands on for what it received
 pub open spec fn loop_reaction(x: Result) -> Result {
